@@ -389,6 +389,32 @@ def generic_compare(res, cases_text, model, impl, spec=None, nontrivial=None):
 # --------------------------------------------------------------------------
 # property checks (registered below)
 
+def coq_bytes(hexs):
+    if hexs in ("-", ""):
+        return "[]"
+    b = bytes.fromhex(hexs)
+    return "[" + ";".join(str(x) for x in b) + "]"
+
+
+def vm_crosscheck(res, name, header, fn, rows):
+    """Thorough tier: evaluate the model INSIDE Coq (vm_compute) on a sample and compare with what the
+    extracted OCaml binary printed for the same inputs - a check of extraction + driver, not of gldap.
+    rows: list of (coq_input_term, coq_expected_term)."""
+    d = os.path.join(WORK, "vmx")
+    os.makedirs(d, exist_ok=True)
+    path = os.path.join(d, "Vmx_%s.v" % name)
+    with open(path, "w") as f:
+        f.write(header + "\n")
+        f.write("Definition rows := [\n" + ";\n".join("  (%s, %s)" % r for r in rows) + "\n].\n")
+        f.write("Definition bad := length (filter (fun r => negb (%s (fst r) (snd r))) rows).\n" % fn)
+        f.write("Eval vm_compute in bad.\n")
+    rc, out = sh("timeout 900 coqc -Q %s G %s" % (COQ, path), cwd=d, timeout=1000)
+    ok = rc == 0 and re.search(r"=\s*0\s*:\s*nat", out) is not None
+    res.extra.setdefault("in_coq_vm_compute_crosscheck", {})[name] = dict(cases=len(rows), agrees=ok)
+    if not ok:
+        res.broken = getattr(res, "broken", []) + ["extraction cross-check %s: vm_compute inside Coq and the extracted binary disagree: %s" % (name, out[-600:])]
+
+
 CHECKS = {}
 
 
@@ -427,6 +453,26 @@ def check_c16(tier, seed, res):
         return len(line.split(" ")) > 3
 
     generic_compare(res, cases, model, impl, spec, nontriv)
+    if tier == "thorough":
+        rows = []
+        for k, line in case_map(cases).items():
+            if k[0] != "convert" or k not in model:
+                continue
+            t = line.split(" ")[2:]
+            nin = int(t[0]); ins = t[1:1 + nin]
+            m = model[k].split(" ")
+            if m[0] == "OK":
+                exp = "(0, [%s])" % "; ".join(coq_bytes(x) for x in m[2:2 + int(m[1])])
+            else:
+                exp = "(%d, [])" % (1 if m[0] == "ERR" else 2)
+            rows.append(("[%s]" % "; ".join(coq_bytes(x) for x in ins), exp))
+            if len(rows) >= 1500:
+                break
+        vm_crosscheck(res, "C16_convert",
+                      "From Coq Require Import NArith List Bool.\nFrom G Require Import Base Helpers.\nImport ListNotations.\nOpen Scope N_scope.\n"
+                      "Fixpoint lbeq (a b : list (list N)) : bool := match a, b with [], [] => true | x :: r, y :: q => beq_bytes x y && lbeq r q | _, _ => false end.\n"
+                      "Definition agree (i : list (list N)) (e : N * list (list N)) : bool := match convert_string i, fst e with Ok l, 0 => lbeq l (snd e) | Err, 1 => true | Panic, 2 => true | _, _ => false end.",
+                      "agree", rows)
     res.rule = ("exhaustive short strings over a 12-byte tag/length alphabet (len<=%d) for ConvertString, "
                 "exhaustive short slices over a 5-byte alphabet for SIDBytesToString, boundary grid for SIDBytes, "
                 "seeded random wraps/maps/option programs; non-trivial = case with at least one non-empty argument; "
@@ -569,6 +615,20 @@ def check_c02(tier, seed, res):
                 res.mismatch(line, i, m)
         elif res.evaluations % 3001 == 1:
             res.sample(line[:200] + "  =>  " + i[:120])
+    if tier == "thorough":
+        rows = []
+        for k, line in list(case_map(allcases).items())[::97]:
+            m = model.get(k)
+            hexs = line.split(" ")[2]
+            if m is None or m.startswith("DRIVER") or "0c" in [hexs[j:j + 2] for j in range(0, len(hexs), 2)]:
+                continue        # tag 12 contents are judged by the driver's UTF-8 oracle
+            rows.append((coq_bytes(hexs), {"OK": "0", "ERR": "1", "PANIC": "2"}.get(m.split(" ")[0], "9")))
+            if len(rows) >= 1200:
+                break
+        vm_crosscheck(res, "C02_decode_class",
+                      "From Coq Require Import NArith List Bool.\nFrom G Require Import Base Ber Ldap.\nImport ListNotations.\nOpen Scope N_scope.\n"
+                      "Definition agree (i : list N) (e : N) : bool := match server_receive (fun _ _ => false) true true i, e with Ok _, 0 => true | Err, 1 => true | Panic, 2 => true | _, _ => false end.",
+                      "agree", rows)
     # frame after frame on one connection
     streams = gen_cases("c02stream", seed, 200 if tier == "quick" else 5000, tier)
     model, impl = differential(streams, wd("C02"), "stream")
@@ -1211,7 +1271,7 @@ def rx_bounds(ops, upto, nconn):
                     reqs.setdefault(op[1], []).append(it)
                     if "W" in it["steps"] or "p" in it["steps"]:
                         dirty[op[1]] = True
-                else:
+                elif it["kind"] != "hello":
                     dirty[op[1]] = True
             if op[0] == "sendclose":
                 dirty[op[1]] = True
@@ -1263,11 +1323,14 @@ def life_spec(pid, line, snaps):
                 rx = int(c["rx"])
                 if rx > hi:
                     return ("unexpected-frame", "connection %d received %d frames although its handlers wrote at most %d (operation %d): gldap answered something no handler wrote" % (ci, rx, hi, k))
-                if k == len(P) - 1 and rx < lo and "hs" not in ops_text:
+                if k == len(P) - 1 and rx < lo:
                     return ("lost-frame", "connection %d received %d frames although handlers that returned wrote %d (operation %d)" % (ci, rx, lo, k))
-                if unserved is not None and pid == "C07":
-                    return ("bystander-unserved", "request %d on undisturbed connection %d was not served (operation %d)" % (unserved, ci, k))
+                if unserved is not None and pid in ("C07", "C13"):
+                    return ("bystander-unserved" if pid == "C07" else "unserved-in-tunnel", "request %d on undisturbed connection %d was not served (operation %d)" % (unserved, ci, k))
     for k, p in enumerate(P):
+        for ci, c in enumerate(p["conns"]):
+            if c.get("wire"):
+                return ("plaintext-after-upgrade", "connection %d: after the StartTLS upgrade the server sent bytes that are not TLS records (operation %d)" % (ci, k))
         if pid == "C07" and p.get("alive") == "0":
             return ("process-died", "the server process died at operation %d" % k)
         if pid == "C07" and p.get("run") in ("err", "ok") and p.get("stops", "0/0").endswith("/0") and "addr=" not in line.split(" ")[2]:
@@ -1297,6 +1360,19 @@ def life_spec(pid, line, snaps):
             ids = [c.get("id") for c in p["conns"]]
             if len(set(ids)) != len(ids) or any(int(i) <= 0 for i in ids):
                 return ("connection-ids", "connection ids not unique/positive: %r" % (ids,))
+        if pid == "C12" and OPS:
+            # a connection Accept had handed over before Stop was called (Run held before newConn)
+            pending = 0; parkedf = False
+            for op in OPS[:k + 1]:
+                if op[0] == "parkaccept":
+                    parkedf = op[1] == "1"
+                    if not parkedf:
+                        pending = 0
+                elif op[0] == "connect" and parkedf:
+                    pending += 1
+            st0 = p.get("stops", "0/0").split("/")
+            if pending and st0[1] != "0" and st0[0] == st0[1]:
+                return ("conn-open-after-stop", "Stop has returned although %d connection(s) accepted before it was called are still being set up (not closed, OnClose not called) (operation %d)" % (pending, k))
         if pid == "C12":
             st = p.get("stops", "0/0").split("/")
             if st[1] != "0" and st[0] == st[1] and p.get("run") in ("ok", "err"):
@@ -1312,6 +1388,21 @@ def life_spec(pid, line, snaps):
         st = last.get("stops", "0/0").split("/")
         if st[1] != "0" and (st[0] != st[1] or last.get("run") not in ("ok", "err")) and "b " not in ops_text:
             return ("stop-hangs", "Stop (or Run) did not return within the limit: stops=%s run=%s" % (last.get("stops"), last.get("run")))
+    if pid == "C06" and P and OPS:
+        for k, p in enumerate(P):
+            reqs, dirty, stopped = rx_bounds(OPS, k + 1, len(p["conns"]))
+            if k != len(P) - 1:
+                continue
+            for ci, c in enumerate(p["conns"]):
+                if dirty.get(ci) or stopped:
+                    continue
+                want = 0
+                for it in reqs.get(ci, []):
+                    want += 1
+                    if it["kind"] == "unbind":
+                        break
+                if len(c["started"]) < want:
+                    return ("not-dispatched", "connection %d: %d requests were pipelined and only %d were handed to a handler while the earlier ones block (operation %d)" % (ci, want, len(c["started"]), k))
     if pid == "C06" and P:
         # after the pipeline was sent every request must have a started handler numbered 1..N
         for p in P:
@@ -1425,6 +1516,24 @@ def life_check(pid, gens, n, tier, seed, res):
 @check("C17")
 def check_c17(tier, seed, res):
     life_check("C17", ["c17"], 0, tier, seed, res)
+    # address forms: Run on each, judged against Go's own net.Listen and a connection attempt
+    cases = gen_cases("c17addr", seed, 0, tier)
+    iout = run_vh(cases)
+    impl = parse_results(iout)
+    forms = {}
+    for k, line in case_map(cases).items():
+        res.evaluations += 1
+        i = impl.get(k)
+        if i is None or i.startswith("HARNESS"):
+            res.mismatch(line, str(i), "-"); continue
+        res.nontrivial.add(line)
+        cls = re.search(r"class=(\w+)", i).group(1) if "class=" in i else "?"
+        forms[cls] = forms.get(cls, 0) + 1
+        if i.startswith("SPECFAIL"):
+            res.violation("address:" + ("malformed-accepted" if "did not return an error" in i else "ready-not-serving"), line, i, "Run fails on a malformed address and Ready stays false; Ready implies the address is served", i[9:120])
+        elif res.evaluations % 9 == 0:
+            res.sample(bytes.fromhex(line.split(" ")[2]).decode("latin1") + "  =>  " + i[:90])
+    res.extra["address_forms"] = forms
     res.rule = ("scenarios: Run on a free port then connect/serve/Stop; Run on a port that is already bound; Run on a malformed address; each alone and "
                 "followed by Stop; after every operation the worker's Ready(), Run's return and the port are sampled and compared with the LTS prediction; "
                 "one evaluation = one scenario")
@@ -1472,7 +1581,7 @@ def make_life_check(pid, gens):
         res.rule = LIFE_RULES[pid] + "; every scenario is predicted by the LTS (Sys.v, canonical scheduler to quiescence) and forced on a real server in a worker process; after each operation the observed snapshot (ready, Run/Stop returns, port, per connection: id, handlers started/ended, closed, OnClose count) must become and stay the predicted one; one evaluation = one scenario"
     CHECKS[pid] = fn
 
-for _pid, _g in [("C06", ["c06"]), ("C07", ["c07", "c07accept", "c07stall"]), ("C08", ["c08", "c08edges"]), ("C09", ["c09"]), ("C10", ["c10"]), ("C11", ["c11"]), ("C12", ["c12"]), ("C13", ["c13"])]:
+for _pid, _g in [("C06", ["c06"]), ("C07", ["c07", "c07accept", "c07stall"]), ("C08", ["c08", "c08edges"]), ("C09", ["c09"]), ("C10", ["c10"]), ("C11", ["c11", "c11accept"]), ("C12", ["c12", "c12accept", "c12slowstop"]), ("C13", ["c13"])]:
     make_life_check(_pid, _g)
 
 
@@ -1591,10 +1700,14 @@ def check_c15(tier, seed, res):
     cases = ""
     for gname in (["c06", "c07", "c08", "c10", "c11", "c12", "c13"] if tier == "quick" else ["c06", "c07", "c08", "c09", "c10", "c11", "c12", "c13", "c17"]):
         cases += gen_cases(gname, seed, n, tier)
-    cases = renumber(cases)
+    # the forced interleavings and fault scenarios are always all in
+    forced = ""
+    for gname in ["c12accept", "c12slowstop", "c11accept", "c07accept", "c07stall", "c08edges"]:
+        forced += gen_cases(gname, seed, n, tier)
     lines = [l for l in cases.splitlines() if l]
     if tier == "quick":
         lines = lines[::3]      # a third of the scenarios of every family
+    lines = [l for l in renumber("\n".join(lines + [l for l in forced.splitlines() if l]) + "\n").splitlines() if l]
     # add race=1 to the configuration of every scenario
     cases = "\n".join(re.sub(r"^(life \S+ )(\S+)", lambda m: m.group(1) + m.group(2) + ":race=1", l) for l in lines) + "\n"
     mout = run_driver(cases)
